@@ -10,7 +10,7 @@ func init() {
 			"whose write-back happens only on the no-error edge, whose recover handler re-panics exactly for out-of-gas errors and otherwise converts the panic into an error; and that the subscriber loop visits every subscriber.",
 		NotCovered:  []string{"'exactly once' over block-time sequences as a trace property", "grid start + n*duration as a number over histories"},
 		Assumptions: []string{"sdk.Context.CacheContext isolates writes until write() is called (SDK)"},
-		MinObl:      30,
+		MinObl:      55,
 		Run:         runC17,
 	})
 }
